@@ -172,7 +172,18 @@ func runRingCase(t *testing.T, run *vt.Run, c vt.CaseID, rng *rand.Rand, rc ring
 		for i := 0; i < nrings; i++ {
 			st := rk.NewStore()
 			st.RecordGets = false
-			st.Put("harness", rk.Key, rk.Desc(rc.Insts))
+			desc := rk.Desc(rc.Insts)
+			if (i+int(c.Idx))%2 == 1 {
+				// every other copy stores the token lists in reverse order (descriptors written by older versions
+				// need not be sorted; the client sorts what it loads)
+				for id, e := range desc.Ingesters {
+					for a, b := 0, len(e.Tokens)-1; a < b; a, b = a+1, b-1 {
+						e.Tokens[a], e.Tokens[b] = e.Tokens[b], e.Tokens[a]
+					}
+					desc.Ingesters[id] = e
+				}
+			}
+			st.Put("harness", rk.Key, desc)
 			r, stop, err := rk.StartRing(cfg, st.Client("ring"), rk.Key)
 			if err != nil {
 				run.Inconclusive("ring start: " + err.Error())
